@@ -8,7 +8,8 @@ C04 — package graph caches are transparent.  Property theorems about `Model/Me
   matcher_hit_sound                 a `PackageMatcher.matches` hit returns what a fresh computation returns
   touch_propagation (+ sharing)     a touch through any copy reaches every set of the caller's stack;
   hit_touch_propagation             the memoised evaluator adds the keys of a hit matcher to the caller
-  memo_table_transparent (+ _eq)    ANY sequence of prepare calls: memoised evaluator = unmemoised evaluator
+  memo_table_transparent (+ _eq,    ANY sequence of prepare calls: memoised evaluator = unmemoised evaluator
+   memo_table_complete)             (soundness, determinism, completeness)
   yaml_cache_transparent            ANY history of invocations, under StatChanges
   cachekey_injective (+ contents)   equal key ⇒ same Bob, same files with the same contents, same root env, same flag
   persisted_transparent             a value stored under an injective key is what a fresh computation gives
@@ -223,6 +224,42 @@ theorem memo_table_transparent_eq (prog : Prog K V X R) (proj : V → W) (rid : 
   have b := runCallsU_mono_le prog m (max m0 m) (Nat.le_max_right _ _) _ _ hU
   rw [a] at b
   exact Option.some.inj b
+
+/-- **completeness**: whenever the evaluator without memo returns for the whole sequence, the memoised evaluator
+(from any correct memo state, with enough fuel) returns exactly the same results.  Together with
+`memo_table_transparent` this is: memoised evaluator = unmemoised evaluator. -/
+theorem memo_table_complete (prog : Prog K V X R) (proj : V → W) (rid : R → I)
+    (hproj : Function.Injective proj) (hrid : Function.Injective rid) (calls : List (Nat × X × Envf K V)) :
+    ∀ (m : Nat) (tb : Tbl K W X R I) (rs : List R), TblOK prog proj rid tb → runCallsU prog m calls = some rs →
+      ∃ n tb', runCallsM prog proj rid n tb calls = some (rs, tb') := by
+  induction calls with
+  | nil =>
+    intro m tb rs _ h
+    simp only [runCallsU, Option.some.injEq] at h
+    exact ⟨0, tb, by simp [runCallsM, h]⟩
+  | cons c rest ih =>
+    intro m tb rs htb h
+    obtain ⟨rc, x, e⟩ := c
+    rw [runCallsU] at h
+    cases h1 : evalU prog m (.call rc x true (fun _ => none) .ret) e with
+    | none => rw [h1] at h; cases h
+    | some p =>
+      rw [h1] at h
+      obtain ⟨r, t⟩ := p
+      simp only at h
+      cases h2 : runCallsU prog m rest with
+      | none => rw [h2] at h; cases h
+      | some rs' =>
+        rw [h2] at h
+        simp only [Option.some.injEq] at h
+        subst h
+        obtain ⟨n1, t', tb1, hm1⟩ := evalM_complete prog proj rid hproj hrid m _ e r t tb htb h1
+        obtain ⟨_, hok1⟩ := evalM_sound prog proj rid hproj hrid n1 tb _ e r t' tb1 htb hm1
+        obtain ⟨n2, tb2, hm2⟩ := ih m tb1 rs' hok1 h2
+        refine ⟨max n1 n2, tb2, ?_⟩
+        rw [runCallsM, evalM_mono_le prog proj rid n1 _ (Nat.le_max_left _ _) _ _ _ _ hm1]
+        simp only
+        rw [runCallsM_mono_le prog proj rid n2 _ (Nat.le_max_right _ _) _ _ _ hm2]
 
 end Table
 
